@@ -216,13 +216,22 @@ func (w *World) factBound(expr string, at ssa.Instruction, d int) (lo, hi int64,
 		if f.dCond != nil {
 			// fact derived from a boolean helper: operands are values of the helper's body
 			var other ssa.Value
-			if lhs == expr {
-				other = f.dCond.Y
-			} else if rhs == expr {
-				other = f.dCond.X
-				op = map[string]string{"<": ">", ">": "<", "<=": ">=", ">=": "<=", "==": "==", "!=": "!="}[op]
-			} else {
+			if lhs != expr && rhs != expr {
 				continue
+			}
+			// orientation is taken from the helper's own comparison when its operands can be told apart
+			// by rendering (the fact string may have been normalised), else from the string position
+			flipOp := map[string]string{"<": ">", ">": "<", "<=": ">=", ">=": "<=", "==": "==", "!=": "!="}
+			rx, ry := render(f.dCond.X), render(f.dCond.Y)
+			switch {
+			case rx == expr && ry != expr:
+				other, op = f.dCond.Y, f.dCond.Op.String()
+			case ry == expr && rx != expr:
+				other, op = f.dCond.X, flipOp[f.dCond.Op.String()]
+			case lhs == expr:
+				other = f.dCond.Y
+			default:
+				other, op = f.dCond.X, flipOp[op]
 			}
 			if l2, h2, k2 := w.intBoundD(other, f.dAt, d+2); k2 {
 				switch op {
@@ -801,7 +810,7 @@ func (w *World) globalLen(g *ssa.Global, d int) (lo, hi int64, ok bool) {
 		if isTestFile(w, fn.Pos()) {
 			continue
 		}
-		instrs(fn, func(ins ssa.Instruction) {
+		instrsFlat(fn, func(ins ssa.Instruction) {
 			if st, isSt := ins.(*ssa.Store); isSt && st.Addr == g {
 				stores = append(stores, st)
 			}
@@ -879,14 +888,13 @@ func countedLoop(ph *ssa.Phi) (bound ssa.Value, ok bool) {
 	return nil, false
 }
 
-
 // globalInt: a package-level integer variable that is assigned exactly once, in the package
 // initialiser, from a constant expression (e.g. `var shareSize = frBytesLen`).
 func (w *World) globalInt(g *ssa.Global) (lo, hi int64, ok bool) {
 	var vals []ssa.Value
 	bad := false
 	for _, fn := range w.moduleFuncsAll() {
-		instrs(fn, func(ins ssa.Instruction) {
+		instrsFlat(fn, func(ins ssa.Instruction) {
 			if st, isSt := ins.(*ssa.Store); isSt && st.Addr == ssa.Value(g) {
 				if fn.Name() != "init" {
 					bad = true
@@ -944,7 +952,7 @@ func (w *World) fieldIntInvariant(fld *types.Var, d int) (lo, hi int64, ok bool)
 		if isTestFile(w, fn.Pos()) {
 			continue
 		}
-		instrs(fn, func(ins ssa.Instruction) {
+		instrsFlat(fn, func(ins ssa.Instruction) {
 			st, isSt := ins.(*ssa.Store)
 			if !isSt {
 				return
@@ -994,7 +1002,7 @@ func (w *World) fieldLenInvariant(fld *types.Var, d int) (lo, hi int64, ok bool)
 		if isTestFile(w, fn.Pos()) {
 			continue
 		}
-		instrs(fn, func(ins ssa.Instruction) {
+		instrsFlat(fn, func(ins ssa.Instruction) {
 			st, isSt := ins.(*ssa.Store)
 			if !isSt {
 				return
@@ -1022,7 +1030,6 @@ func (w *World) fieldLenInvariant(fld *types.Var, d int) (lo, hi int64, ok bool)
 	w.fieldLenInv[fld] = [3]int64{lo, hi, 1}
 	return lo, hi, true
 }
-
 
 // expandBoolHelpers: a fact `recv.helper(args) == true/false` about a module function whose body is a
 // single `return a <op> b` yields the fact `a <op> b` (negated for false) with the helper's
